@@ -27,3 +27,489 @@ Print Assumptions C07_eval_from_source.
 Theorem C07_resolve_immediates_from_source : Proofs.Guards.resolve_immediates_from_source_stmt.
 Proof. exact Proofs.Guards.resolve_immediates_from_source. Qed.
 Print Assumptions C07_resolve_immediates_from_source.
+
+(* ==== CONSEQUENTLY: the consuming instruction PAIRS, written by hand, assembled by the pass model and run on the Spec machine ====
+   (proofs: Proofs/RelocPairs.v, Proofs/RelocPairsProgram.v; arithmetic = C07_rebuild, encodings = C01 decode_encode, machine = Spec/Sem.v)
+
+   What the statements are about:
+   * mkU / mkI (Model/Passes.v) and mkS (Proofs/RelocPairs.v): the U-, I- and S-type items exactly as the parser model builds them for
+     `lui rd, imm`, `addi rd, rs1, imm` = `lw rd, imm(rs1)`, `sw rs1, rs2, imm` = `sw rs2, imm(rs1)`; a hand-written I-type item has
+     is_auipc_jump = false, so resolve_immediates evaluates its immediate at ITS OWN position (4 bytes behind the first line);
+   * emit_lines consts labels pos [(l1, i1); (l2, i2)] : the model's resolve_immediates (from position pos, under the final constants / labels),
+     resolve_instructions (GENERATED encoders) and resolve_blobs on the two items; at this level the statements hold for EVERY final layout
+     (the form of C05_li ... and of C08_final: every instruction of a program is resolved exactly like this at its final offset);
+   * the *_program theorems take the two-line program, and the program  A: <pair> B:, through all 16 passes (assemble_items, compress = false);
+   * loaded / run_n / getr / only_reg / load_val / store_le: the fetching Spec machine (Spec/Sem.v); two_regs s s' t vt rd vrd (Proofs/RelocPairs.v):
+     s' differs from s at most in t (now vt) and rd (now vrd; rd may be t), x0 never changes, memory untouched;
+   * registers may be spelled in any way the assembler accepts (regnum of Spec/Operands.v; the two spellings t, t' of the scratch register
+     need only denote the same register); the scratch register must not be x0 (an upper immediate written to x0 is lost);
+   * is_position_relative e = false (Model/Passes.v, tied to asm.is_position_relative by C08_position_relative_from_source): e contains no
+     %offset -- literals, constants, bare labels and %position(label, base) are all covered; v ranges over all of Z. *)
+From Coq Require Import List Bool String.
+From BB Require Import Spec.RV32 Spec.Operands Spec.Sem Model.Items Model.Passes Proofs.PseudoEmit Proofs.RelocPairs Proofs.RelocPairsProgram.
+Import ListNotations.
+Open Scope Z_scope.
+Open Scope list_scope.
+
+(* (a) lui rd, %hi(e) ; addi rd, rd, %lo(e):  rd = e mod 2^32, nothing else changes (rd = x0: nothing changes at all), pc + 8 *)
+Theorem C07_lui_addi_pair : forall consts labels pos l1 l2 rd e bs,
+  is_position_relative e = false ->
+  emit_lines consts labels pos [(l1, mkU "lui" rd (EHi e)); (l2, mkI "addi" rd rd (ELo e) false)] = Done bs ->
+  exists nrd v, regnum rd = Some nrd /\ eval_here l1 pos consts labels e = Done v /\
+    forall s, loaded s bs ->
+      exists s', run_n 2 s = Some s' /\ pc s' = wrap (pc s + 8) /\ only_reg s s' nrd (wrap v).
+Proof. exact lui_addi_pair. Qed.
+
+(* lui t, %hi(e) ; addi rd, t, %lo(e):  rd = e, t = %hi(e) << 12 (when rd is another register) *)
+Theorem C07_lui_addi_pair_scratch : forall consts labels pos l1 l2 t t' rd e bs,
+  is_position_relative e = false ->
+  emit_lines consts labels pos [(l1, mkU "lui" t (EHi e)); (l2, mkI "addi" rd t' (ELo e) false)] = Done bs ->
+  exists nt nt' nrd v, regnum t = Some nt /\ regnum t' = Some nt' /\ regnum rd = Some nrd /\
+    eval_here l1 pos consts labels e = Done v /\
+    forall s, loaded s bs -> nt' = nt -> nt <> 0 ->
+      exists s', run_n 2 s = Some s' /\ pc s' = wrap (pc s + 8) /\
+        two_regs s s' nt (wrap (relocate_hi v * 4096)) nrd (wrap v).
+Proof. exact lui_addi_scratch. Qed.
+
+(* the two-line program through all 16 passes; and between two labels that e may name (bare label, %position) *)
+Theorem C07_lui_addi_program : forall l1 l2 rd e r,
+  is_position_relative e = false ->
+  assemble_items [(l1, mkU "lui" (AStr rd) (EHi e)); (l2, mkI "addi" (AStr rd) (AStr rd) (ELo e) false)] [] [] false = Done r ->
+  exists nrd v, regnum (AStr rd) = Some nrd /\ eval_here l1 0 [] [] e = Done v /\
+    forall s, loaded s (out_bytes r) ->
+      exists s', run_n 2 s = Some s' /\ pc s' = wrap (pc s + 8) /\ only_reg s s' nrd (wrap v).
+Proof. exact lui_addi_program. Qed.
+Theorem C07_lui_addi_label_program : forall la l1 l2 lb A B rd e r,
+  is_position_relative e = false ->
+  assemble_items [(la, ILabel A); (l1, mkU "lui" (AStr rd) (EHi e)); (l2, mkI "addi" (AStr rd) (AStr rd) (ELo e) false); (lb, ILabel B)]
+                 [] [] false = Done r ->
+  r_labels r = [(A, 0); (B, 8)] /\
+  exists nrd v, regnum (AStr rd) = Some nrd /\ eval_here l1 0 [] (r_labels r) e = Done v /\
+    forall s, loaded s (out_bytes r) ->
+      exists s', run_n 2 s = Some s' /\ pc s' = wrap (pc s + 8) /\ only_reg s s' nrd (wrap v).
+Proof. exact lui_addi_label_program. Qed.
+
+(* (b) lui t, %hi(e) ; lw rd, %lo(e)(t)  (lb lh lw lbu lhu: lwidth_name w):  rd = load_val w of the memory before the pair at address
+   e mod 2^32 -- for lw the little-endian word of the four bytes at e, e+1, e+2, e+3 (addresses modulo 2^32; misalignment is not a fault
+   in Spec/Sem.v); rd may be t *)
+Theorem C07_lui_load_pair : forall w consts labels pos l1 l2 t t' rd e bs,
+  is_position_relative e = false ->
+  emit_lines consts labels pos [(l1, mkU "lui" t (EHi e)); (l2, mkI (lwidth_name w) rd t' (ELo e) false)] = Done bs ->
+  exists nt nt' nrd v, regnum t = Some nt /\ regnum t' = Some nt' /\ regnum rd = Some nrd /\
+    eval_here l1 pos consts labels e = Done v /\
+    forall s, loaded s bs -> nt' = nt -> nt <> 0 ->
+      exists s', run_n 2 s = Some s' /\ pc s' = wrap (pc s + 8) /\
+        two_regs s s' nt (wrap (relocate_hi v * 4096)) nrd (load_val w (mem s) (wrap v)).
+Proof. exact lui_load_pair. Qed.
+
+(* lui t, %hi(e) ; sw rs, %lo(e)(t)  (sb sh sw):  the low 1 / 2 / 4 bytes of rs are stored little-endian at address e mod 2^32 (store_le);
+   the only register that changes is t; if rs is t itself, what is stored is the upper part t holds by then *)
+Theorem C07_lui_store_pair : forall w consts labels pos l1 l2 t t' rs e bs,
+  is_position_relative e = false ->
+  emit_lines consts labels pos [(l1, mkU "lui" t (EHi e)); (l2, mkS (swidth_name w) t' rs (ELo e))] = Done bs ->
+  exists nt nt' nrs v, regnum t = Some nt /\ regnum t' = Some nt' /\ regnum rs = Some nrs /\
+    eval_here l1 pos consts labels e = Done v /\
+    forall s, loaded s bs -> nt' = nt -> nt <> 0 ->
+      exists s', run_n 2 s = Some s' /\ pc s' = wrap (pc s + 8) /\
+        getr s' nt = wrap (relocate_hi v * 4096) /\ (forall r, r <> nt -> getr s' r = getr s r) /\
+        mem s' = store_le (swidth_bytes w) (mem s) (wrap v) (if nrs =? nt then wrap (relocate_hi v * 4096) else getr s nrs).
+Proof. exact lui_store_pair. Qed.
+
+Theorem C07_lui_load_program : forall w l1 l2 t rd e r,
+  is_position_relative e = false ->
+  assemble_items [(l1, mkU "lui" (AStr t) (EHi e)); (l2, mkI (lwidth_name w) (AStr rd) (AStr t) (ELo e) false)] [] [] false = Done r ->
+  exists nt nrd v, regnum (AStr t) = Some nt /\ regnum (AStr rd) = Some nrd /\ eval_here l1 0 [] [] e = Done v /\
+    forall s, loaded s (out_bytes r) -> nt <> 0 ->
+      exists s', run_n 2 s = Some s' /\ pc s' = wrap (pc s + 8) /\
+        two_regs s s' nt (wrap (relocate_hi v * 4096)) nrd (load_val w (mem s) (wrap v)).
+Proof. exact lui_load_program. Qed.
+Theorem C07_lui_store_program : forall w l1 l2 t rs e r,
+  is_position_relative e = false ->
+  assemble_items [(l1, mkU "lui" (AStr t) (EHi e)); (l2, mkS (swidth_name w) (AStr t) (AStr rs) (ELo e))] [] [] false = Done r ->
+  exists nt nrs v, regnum (AStr t) = Some nt /\ regnum (AStr rs) = Some nrs /\ eval_here l1 0 [] [] e = Done v /\
+    forall s, loaded s (out_bytes r) -> nt <> 0 ->
+      exists s', run_n 2 s = Some s' /\ pc s' = wrap (pc s + 8) /\
+        getr s' nt = wrap (relocate_hi v * 4096) /\ (forall x, x <> nt -> getr s' x = getr s x) /\
+        mem s' = store_le (swidth_bytes w) (mem s) (wrap v) (if nrs =? nt then wrap (relocate_hi v * 4096) else getr s nrs).
+Proof. exact lui_store_program. Qed.
+
+(* (c) auipc t, %hi(%offset(L1)) ; jalr rd, t, %lo(%offset(L2))  WRITTEN BY HAND.  Only the pair that call / tail expand to carries the
+   is_auipc_jump flag that makes resolve_immediates take both halves at the auipc; a hand-written jalr takes ITS %offset 4 bytes later.
+   q1, q2: final values of L1, L2; the code stands at position pos, loaded at the pc, so L1 is at address pc + (q1 - pos).
+   THE TRUE THEOREM: the jump goes to  pc + (q1 - pos) + (%lo(q2 - (pos + 4)) - %lo(q1 - pos))  with bit 0 cleared; rd = pc + 8. *)
+Theorem C07_auipc_jalr_pair : forall consts labels pos l1 l2 t t' rd L1 L2 bs,
+  emit_lines consts labels pos [(l1, mkU "auipc" t (EHi (EOff L1))); (l2, mkI "jalr" rd t' (ELo (EOff L2)) false)] = Done bs ->
+  exists nt nt' nrd q1 q2, regnum t = Some nt /\ regnum t' = Some nt' /\ regnum rd = Some nrd /\
+    chain_get consts labels L1 = Some q1 /\ chain_get consts labels L2 = Some q2 /\
+    forall s, loaded s bs -> nt' = nt -> nt <> 0 ->
+      let target := wrap (pc s + (q1 - pos) + (relocate_lo (q2 - (pos + 4)) - relocate_lo (q1 - pos))) in
+      exists s', run_n 2 s = Some s' /\ pc s' = target - target mod 2 /\
+        two_regs s s' nt (wrap (pc s + relocate_hi (q1 - pos) * 4096)) nrd (wrap (pc s + 8)).
+Proof. exact auipc_jalr_labels. Qed.
+
+(* ... with the SAME label in both halves -- the expansion table of call / tail in docs/instruction_reference.rst
+   ("auipc x1, %hi(offset) ; jalr x1, x1, %lo(offset)") copied by hand: the jump goes to  L - 4, and to  L + 4092  when the distance from the
+   auipc to L is 2048 .. 2051 modulo 4096 (lo_window: %hi is rounded for a low half that the later jalr no longer has).  It NEVER reaches L. *)
+Theorem C07_auipc_jalr_same_label_misses : forall consts labels pos l1 l2 t t' rd L bs,
+  emit_lines consts labels pos [(l1, mkU "auipc" t (EHi (EOff L))); (l2, mkI "jalr" rd t' (ELo (EOff L)) false)] = Done bs ->
+  exists nt nt' nrd q, regnum t = Some nt /\ regnum t' = Some nt' /\ regnum rd = Some nrd /\ chain_get consts labels L = Some q /\
+    forall s, loaded s bs -> nt' = nt -> nt <> 0 ->
+      let target := wrap (pc s + (q - pos) - 4 + (if lo_window (q - pos) then 4096 else 0)) in
+      exists s', run_n 2 s = Some s' /\ pc s' = target - target mod 2 /\ pc s' <> wrap (pc s + (q - pos)) /\
+        two_regs s s' nt (wrap (pc s + relocate_hi (q - pos) * 4096)) nrd (wrap (pc s + 8)).
+Proof. exact auipc_jalr_same_label. Qed.
+Theorem C07_lo_window : forall d, lo_window d = andb (2048 <=? d mod 4096) (d mod 4096 <? 2052).
+Proof. reflexivity. Qed.
+
+(* ... and the hand-written recipe that DOES reach L1: name, in the second half, a label standing 4 bytes behind it *)
+Theorem C07_auipc_jalr_next_label_lands : forall consts labels pos l1 l2 t t' rd L1 L2 bs,
+  emit_lines consts labels pos [(l1, mkU "auipc" t (EHi (EOff L1))); (l2, mkI "jalr" rd t' (ELo (EOff L2)) false)] = Done bs ->
+  exists nt nt' nrd q1 q2, regnum t = Some nt /\ regnum t' = Some nt' /\ regnum rd = Some nrd /\
+    chain_get consts labels L1 = Some q1 /\ chain_get consts labels L2 = Some q2 /\
+    forall s, loaded s bs -> nt' = nt -> nt <> 0 -> q2 = q1 + 4 ->
+      let target := wrap (pc s + (q1 - pos)) in
+      exists s', run_n 2 s = Some s' /\ pc s' = target - target mod 2 /\
+        two_regs s s' nt (wrap (pc s + relocate_hi (q1 - pos) * 4096)) nrd (wrap (pc s + 8)).
+Proof. exact auipc_jalr_next_label. Qed.
+
+(* auipc t, %hi(%offset(L1)) ; addi rd, t, %lo(%offset(L2)): the same arithmetic lands in rd -- with one label: the address of L minus 4
+   (plus 4096 inside the window), not the address of L *)
+Theorem C07_auipc_addi_pair : forall consts labels pos l1 l2 t t' rd L1 L2 bs,
+  emit_lines consts labels pos [(l1, mkU "auipc" t (EHi (EOff L1))); (l2, mkI "addi" rd t' (ELo (EOff L2)) false)] = Done bs ->
+  exists nt nt' nrd q1 q2, regnum t = Some nt /\ regnum t' = Some nt' /\ regnum rd = Some nrd /\
+    chain_get consts labels L1 = Some q1 /\ chain_get consts labels L2 = Some q2 /\
+    forall s, loaded s bs -> nt' = nt -> nt <> 0 ->
+      exists s', run_n 2 s = Some s' /\ pc s' = wrap (pc s + 8) /\
+        two_regs s s' nt (wrap (pc s + relocate_hi (q1 - pos) * 4096)) nrd
+                 (wrap (pc s + (q1 - pos) + (relocate_lo (q2 - (pos + 4)) - relocate_lo (q1 - pos)))).
+Proof. exact auipc_addi_labels. Qed.
+Theorem C07_auipc_addi_same_label : forall consts labels pos l1 l2 t t' rd L bs,
+  emit_lines consts labels pos [(l1, mkU "auipc" t (EHi (EOff L))); (l2, mkI "addi" rd t' (ELo (EOff L)) false)] = Done bs ->
+  exists nt nt' nrd q, regnum t = Some nt /\ regnum t' = Some nt' /\ regnum rd = Some nrd /\ chain_get consts labels L = Some q /\
+    forall s, loaded s bs -> nt' = nt -> nt <> 0 ->
+      exists s', run_n 2 s = Some s' /\ pc s' = wrap (pc s + 8) /\
+        two_regs s s' nt (wrap (pc s + relocate_hi (q - pos) * 4096)) nrd
+                 (wrap (pc s + (q - pos) - 4 + (if lo_window (q - pos) then 4096 else 0))).
+Proof. exact auipc_addi_same_label. Qed.
+
+(* the program  A: auipc t, %hi(%offset(L)) ; jalr rd, t, %lo(%offset(L)) ; B:  through all 16 passes, L = A or L = B: the jump goes 4 bytes
+   in front of L -- for L = B that is the jalr itself *)
+Theorem C07_auipc_jalr_label_program : forall la l1 l2 lb A B t rd L r,
+  assemble_items [(la, ILabel A); (l1, mkU "auipc" (AStr t) (EHi (EOff L))); (l2, mkI "jalr" (AStr rd) (AStr t) (ELo (EOff L)) false);
+                  (lb, ILabel B)] [] [] false = Done r ->
+  r_labels r = [(A, 0); (B, 8)] /\
+  exists nt nrd q, regnum (AStr t) = Some nt /\ regnum (AStr rd) = Some nrd /\ assoc_str L (r_labels r) = Some q /\ (q = 0 \/ q = 8) /\
+    forall s, loaded s (out_bytes r) -> nt <> 0 ->
+      let target := wrap (pc s + q - 4) in
+      exists s', run_n 2 s = Some s' /\ pc s' = target - target mod 2 /\ pc s' <> wrap (pc s + q) /\
+        two_regs s s' nt (wrap (pc s)) nrd (wrap (pc s + 8)).
+Proof. exact auipc_jalr_label_program. Qed.
+
+(* the general form behind all of the above, for lui and auipc alike and two arbitrary expressions (Proofs/RelocPairs.v upper_*_pair):
+   the pair forms  base + v1 + (%lo(v2) - %lo(v1))  where v1 = e1 at the first line, v2 = e2 at the second line *)
+Theorem C07_upper_readings : forall s,
+  upper_name ULui = "lui"%string /\ upper_name UAuipc = "auipc"%string /\ upper_base ULui s = 0 /\ upper_base UAuipc s = pc s.
+Proof. intros. repeat split. Qed.
+Theorem C07_pair_value : forall u s v1 v2,
+  pair_value u s v1 v2 = wrap (upper_base u s + v1 + (relocate_lo v2 - relocate_lo v1)) /\
+  pair_value u s v1 v1 = wrap (upper_base u s + v1) /\
+  pair_value u s v1 (v1 - 4) = wrap (upper_base u s + v1 - 4 + (if lo_window v1 then 4096 else 0)).
+Proof. intros. split; [reflexivity|]. split; [apply pair_value_same|apply pair_value_minus4]. Qed.
+(* (lui + jalr: an absolute jump to e when v2 = v1; auipc + addi / jalr with expressions other than %offset of one label) *)
+Theorem C07_upper_addi_pair : forall u consts labels pos l1 l2 t t' rd e1 e2 bs,
+  emit_lines consts labels pos [(l1, mkU (upper_name u) t (EHi e1)); (l2, mkI "addi" rd t' (ELo e2) false)] = Done bs ->
+  exists nt nt' nrd v1 v2, regnum t = Some nt /\ regnum t' = Some nt' /\ regnum rd = Some nrd /\
+    eval_here l1 pos consts labels e1 = Done v1 /\ eval_here l2 (pos + 4) consts labels e2 = Done v2 /\
+    forall s, loaded s bs -> nt' = nt -> nt <> 0 ->
+      exists s', run_n 2 s = Some s' /\ pc s' = wrap (pc s + 8) /\
+        two_regs s s' nt (wrap (upper_base u s + relocate_hi v1 * 4096)) nrd (pair_value u s v1 v2).
+Proof. exact upper_addi_pair. Qed.
+Theorem C07_upper_jalr_pair : forall u consts labels pos l1 l2 t t' rd e1 e2 bs,
+  emit_lines consts labels pos [(l1, mkU (upper_name u) t (EHi e1)); (l2, mkI "jalr" rd t' (ELo e2) false)] = Done bs ->
+  exists nt nt' nrd v1 v2, regnum t = Some nt /\ regnum t' = Some nt' /\ regnum rd = Some nrd /\
+    eval_here l1 pos consts labels e1 = Done v1 /\ eval_here l2 (pos + 4) consts labels e2 = Done v2 /\
+    forall s, loaded s bs -> nt' = nt -> nt <> 0 ->
+      exists s', run_n 2 s = Some s' /\ pc s' = pair_value u s v1 v2 - pair_value u s v1 v2 mod 2 /\
+        two_regs s s' nt (wrap (upper_base u s + relocate_hi v1 * 4096)) nrd (wrap (pc s + 8)).
+Proof. exact upper_jalr_pair. Qed.
+Theorem C07_upper_load_pair : forall u w consts labels pos l1 l2 t t' rd e1 e2 bs,
+  emit_lines consts labels pos [(l1, mkU (upper_name u) t (EHi e1)); (l2, mkI (lwidth_name w) rd t' (ELo e2) false)] = Done bs ->
+  exists nt nt' nrd v1 v2, regnum t = Some nt /\ regnum t' = Some nt' /\ regnum rd = Some nrd /\
+    eval_here l1 pos consts labels e1 = Done v1 /\ eval_here l2 (pos + 4) consts labels e2 = Done v2 /\
+    forall s, loaded s bs -> nt' = nt -> nt <> 0 ->
+      exists s', run_n 2 s = Some s' /\ pc s' = wrap (pc s + 8) /\
+        two_regs s s' nt (wrap (upper_base u s + relocate_hi v1 * 4096)) nrd (load_val w (mem s) (pair_value u s v1 v2)).
+Proof. exact upper_load_pair. Qed.
+Theorem C07_upper_store_pair : forall u w consts labels pos l1 l2 t t' rs e1 e2 bs,
+  emit_lines consts labels pos [(l1, mkU (upper_name u) t (EHi e1)); (l2, mkS (swidth_name w) t' rs (ELo e2))] = Done bs ->
+  exists nt nt' nrs v1 v2, regnum t = Some nt /\ regnum t' = Some nt' /\ regnum rs = Some nrs /\
+    eval_here l1 pos consts labels e1 = Done v1 /\ eval_here l2 (pos + 4) consts labels e2 = Done v2 /\
+    forall s, loaded s bs -> nt' = nt -> nt <> 0 ->
+      exists s', run_n 2 s = Some s' /\ pc s' = wrap (pc s + 8) /\
+        getr s' nt = wrap (upper_base u s + relocate_hi v1 * 4096) /\ (forall r, r <> nt -> getr s' r = getr s r) /\
+        mem s' = store_le (swidth_bytes w) (mem s) (pair_value u s v1 v2)
+                          (if nrs =? nt then wrap (upper_base u s + relocate_hi v1 * 4096) else getr s nrs).
+Proof. exact upper_store_pair. Qed.
+
+(* one traversal of the proof terms for all of them (a separate Print Assumptions per theorem re-walks the C01 proofs, ~4 s apiece) *)
+Definition C07_pair_theorems := (C07_lui_addi_pair, C07_lui_addi_pair_scratch, C07_lui_addi_program, C07_lui_addi_label_program,
+  C07_lui_load_pair, C07_lui_store_pair, C07_lui_load_program, C07_lui_store_program, C07_auipc_jalr_pair,
+  C07_auipc_jalr_same_label_misses, C07_lo_window, C07_auipc_jalr_next_label_lands, C07_auipc_addi_pair, C07_auipc_addi_same_label,
+  C07_auipc_jalr_label_program, C07_upper_readings, C07_pair_value, C07_upper_addi_pair, C07_upper_jalr_pair, C07_upper_load_pair, C07_upper_store_pair).
+Print Assumptions C07_pair_theorems.
+
+(* ---- the hypotheses are satisfiable: concrete programs through all 16 passes (compress = false), their bytes loaded at address base into a
+   machine whose register x_r holds 1000 + r and whose memory outside the code holds the byte (address mod 256), n instructions executed;
+   result: (output bytes, registers asked, pc, memory bytes asked).  The byte lists are those the real assembler prints for the same source. *)
+Definition ex_line (n : Z) : line := {| lfile := "ex"; lnum := n |}.
+Definition ex_state (base : Z) (bs : list Z) : state :=
+  {| regs := fun r => 1000 + r; pc := base;
+     mem := fun a => if (base <=? a) && (a <? base + Z.of_nat (List.length bs)) then nth (Z.to_nat (a - base)) bs 0 else a mod 256 |}.
+Definition ex_run (its : list item) (base : Z) (n : nat) (ask addrs : list Z) : option (list Z * list Z * Z * list Z) :=
+  match assemble_items (map (fun p => (ex_line (Z.of_nat (fst p)), snd p)) (combine (seq 1 (List.length its)) its)) [] [] false with
+  | Done r => match run_n n (ex_state base (out_bytes r)) with
+              | Some s' => Some (out_bytes r, map (getr s') ask, pc s', map (mem s') addrs)
+              | None => None
+              end
+  | _ => None
+  end.
+Definition num (v : Z) : expr := EArith (ANum v).
+Definition lui_i (rd : string) (e : expr) : item := mkU "lui" (AStr rd) (EHi e).
+Definition auipc_i (rd : string) (e : expr) : item := mkU "auipc" (AStr rd) (EHi e).
+Definition lo_i (name rd rs : string) (e : expr) : item := mkI name (AStr rd) (AStr rs) (ELo e) false.
+Definition nop_i : item := mkI "addi" (AStr "x0") (AStr "x0") (num 0) false.
+
+(* 0x12345800: %lo = -2048, %hi rounded up to 0x12346 *)
+Example C07_ex_lui_addi_12345800 :
+  ex_run [lui_i "t0" (num 305420288); lo_i "addi" "t0" "t0" (num 305420288)] 4096 2 [5; 6] []
+  = Some ([183; 98; 52; 18; 147; 130; 2; 128], [305420288; 1006], 4104, []).
+Proof. vm_compute. reflexivity. Qed.
+(* 0x7ffff800: %hi wraps to 0x80000 = -524288 *)
+Example C07_ex_lui_addi_7ffff800 :
+  ex_run [lui_i "t0" (num 2147481600); lo_i "addi" "t0" "t0" (num 2147481600)] 4096 2 [5] []
+  = Some ([183; 2; 0; 128; 147; 130; 2; 128], [2147481600], 4104, []).
+Proof. vm_compute. reflexivity. Qed.
+(* 0xfffff800 and its negative spelling -2048: %hi = 0 *)
+Example C07_ex_lui_addi_fffff800 :
+  ex_run [lui_i "t0" (num 4294965248); lo_i "addi" "t0" "t0" (num 4294965248)] 4096 2 [5] []
+  = Some ([183; 2; 0; 0; 147; 130; 2; 128], [4294965248], 4104, []).
+Proof. vm_compute. reflexivity. Qed.
+Example C07_ex_lui_addi_negative :
+  ex_run [lui_i "t0" (num (-2048)); lo_i "addi" "t0" "t0" (num (-2048))] 4096 2 [5] []
+  = Some ([183; 2; 0; 0; 147; 130; 2; 128], [4294965248], 4104, []).
+Proof. vm_compute. reflexivity. Qed.
+(* rd = x0: nothing changes *)
+Example C07_ex_lui_addi_x0 :
+  ex_run [lui_i "zero" (num 305420288); lo_i "addi" "x0" "0" (num 305420288)] 4096 2 [0; 5] []
+  = Some ([55; 96; 52; 18; 19; 0; 0; 128], [0; 1005], 4104, []).
+Proof. vm_compute. reflexivity. Qed.
+(* two registers, two spellings of the scratch register *)
+Example C07_ex_lui_addi_scratch :
+  ex_run [lui_i "t0" (num 305420288); lo_i "addi" "a0" "x5" (num 305420288)] 4096 2 [5; 10] []
+  = Some ([183; 98; 52; 18; 19; 133; 2; 128], [305422336; 305420288], 4104, []).
+Proof. vm_compute. reflexivity. Qed.
+(* lw a0, %lo(0x12345800)(t0): the word at 0x12345800 is 00 01 02 03 *)
+Example C07_ex_lui_lw :
+  ex_run [lui_i "t0" (num 305420288); lo_i "lw" "a0" "t0" (num 305420288)] 4096 2 [5; 10] []
+  = Some ([183; 98; 52; 18; 3; 165; 2; 128], [305422336; 50462976], 4104, []).
+Proof. vm_compute. reflexivity. Qed.
+(* sw a0, %lo(0x12345800)(t0): a0 = 1010 = 0x3f2 lands at 0x12345800 .. 0x12345803, the neighbours keep their bytes *)
+Example C07_ex_lui_sw :
+  ex_run [lui_i "t0" (num 305420288); mkS "sw" (AStr "t0") (AStr "a0") (ELo (num 305420288))] 4096 2 [5; 10]
+         [305420287; 305420288; 305420289; 305420290; 305420291; 305420292]
+  = Some ([183; 98; 52; 18; 35; 160; 162; 128], [305422336; 1010], 4104, [255; 242; 3; 0; 0; 4]).
+Proof. vm_compute. reflexivity. Qed.
+(* a bare label and %position(label, base) *)
+Example C07_ex_lui_addi_label :
+  ex_run [lui_i "a0" (EArith (AName "L")); lo_i "addi" "a0" "a0" (EArith (AName "L")); ILabel "L"] 4096 2 [10] []
+  = Some ([55; 5; 0; 0; 19; 5; 133; 0], [8], 4104, []).
+Proof. vm_compute. reflexivity. Qed.
+Example C07_ex_lui_addi_position :
+  ex_run [lui_i "a0" (EPos "L" (num 134217728)); lo_i "addi" "a0" "a0" (EPos "L" (num 134217728)); ILabel "L"] 4096 2 [10] []
+  = Some ([55; 5; 0; 8; 19; 5; 133; 0], [134217736], 4104, []).
+Proof. vm_compute. reflexivity. Qed.
+
+(* auipc t0, %hi(%offset(T)) ; jalr ra, t0, %lo(%offset(T)) ; nop ; T: nop -- T is at base + 12, the jump goes to base + 8 *)
+Example C07_ex_auipc_jalr_same_label_refuted :
+  ex_run [auipc_i "t0" (EOff "T"); lo_i "jalr" "ra" "t0" (EOff "T"); nop_i; ILabel "T"; nop_i] 4096 2 [1; 5] []
+  = Some ([151; 2; 0; 0; 231; 128; 130; 0; 19; 0; 0; 0; 19; 0; 0; 0], [4104; 4096], 4104, []).
+Proof. vm_compute. reflexivity. Qed.
+(* ... inside the window: T at base + 2048 (align 2048; the zero padding is a run-length chunk, not part of out_bytes), the jump goes to
+   base + 6140 = T + 4092 *)
+Example C07_ex_auipc_jalr_same_label_window_refuted :
+  ex_run [auipc_i "t0" (EOff "T"); lo_i "jalr" "ra" "t0" (EOff "T"); IAlign 2048; ILabel "T"; nop_i] 4096 2 [1; 5] []
+  = Some ([151; 18; 0; 0; 231; 128; 194; 127; 19; 0; 0; 0], [4104; 8192], 10236, []).
+Proof. vm_compute. reflexivity. Qed.
+(* the second half names T4 = T + 4: lands on T = base + 12 *)
+Example C07_ex_auipc_jalr_next_label :
+  ex_run [auipc_i "t0" (EOff "T"); lo_i "jalr" "ra" "t0" (EOff "T4"); nop_i; ILabel "T"; nop_i; ILabel "T4"] 4096 2 [1; 5] []
+  = Some ([151; 2; 0; 0; 231; 128; 194; 0; 19; 0; 0; 0; 19; 0; 0; 0], [4104; 4096], 4108, []).
+Proof. vm_compute. reflexivity. Qed.
+(* auipc + addi with one label: a0 = base + 8, the address of T minus 4 *)
+Example C07_ex_auipc_addi_same_label :
+  ex_run [auipc_i "t0" (EOff "T"); lo_i "addi" "a0" "t0" (EOff "T"); nop_i; ILabel "T"; nop_i] 4096 2 [10] []
+  = Some ([151; 2; 0; 0; 19; 133; 130; 0; 19; 0; 0; 0; 19; 0; 0; 0], [4104], 4104, []).
+Proof. vm_compute. reflexivity. Qed.
+
+(* ==== the lui + addi pair with compression switched on (Proofs/RelocPairsCompressed.v) =========================================
+   Each of the two hand-written instructions may be replaced by a 16-bit one (c.lui ; c.addi / c.addi16sp / c.mv ...).  Rule level:
+   whatever compress_rule returns for each line (at SOME position / label table), resolved and encoded at WHATEVER final layout,
+   the 4, 6 or 8 bytes still leave e mod 2^32 in rd.  Program level: the two-line program through all 16 passes with compress = true
+   (both compression passes: compressing an item twice is compressing it once, no rule is about a c.* mnemonic). *)
+From BB Require Proofs.RelocPairsCompressed.
+Theorem C07_lui_addi_pair_compressed : forall consts l1 l2 rd e p1 ls1 p2 ls2 rs1 rs2 pos labels bs,
+  is_position_relative e = false ->
+  compress_rule consts l1 (mkU "lui" rd (EHi e)) p1 ls1 = Done rs1 ->
+  compress_rule consts l2 (mkI "addi" rd rd (ELo e) false) p2 ls2 = Done rs2 ->
+  emit_lines consts labels pos (map (fun x => (l1, x)) rs1 ++ map (fun x => (l2, x)) rs2) = Done bs ->
+  exists nrd v len, regnum rd = Some nrd /\ eval_here l1 pos consts labels e = Done v /\
+    In len [4; 6; 8] /\ zlen bs = len /\
+    forall s, loaded s bs ->
+      exists s', run_n 2 s = Some s' /\ pc s' = wrap (pc s + len) /\ only_reg s s' nrd (wrap v).
+Proof. exact RelocPairsCompressed.lui_addi_pair_compressed. Qed.
+Theorem C07_lui_addi_program_compressed : forall l1 l2 rd e r,
+  is_position_relative e = false ->
+  assemble_items [(l1, mkU "lui" (AStr rd) (EHi e)); (l2, mkI "addi" (AStr rd) (AStr rd) (ELo e) false)] [] [] true = Done r ->
+  exists nrd v len, regnum (AStr rd) = Some nrd /\ eval_here l1 0 [] [] e = Done v /\
+    In len [4; 6; 8] /\ zlen (out_bytes r) = len /\
+    forall s, loaded s (out_bytes r) ->
+      exists s', run_n 2 s = Some s' /\ pc s' = wrap (pc s + len) /\ only_reg s s' nrd (wrap v).
+Proof. exact RelocPairsCompressed.lui_addi_program_compressed. Qed.
+Definition C07_compressed_pair_theorems := (C07_lui_addi_pair_compressed, C07_lui_addi_program_compressed).
+Print Assumptions C07_compressed_pair_theorems.
+
+Definition ex_run_c (its : list item) (base : Z) (n : nat) (ask : list Z) : option (list Z * list Z * Z) :=
+  match assemble_items (map (fun p => (ex_line (Z.of_nat (fst p)), snd p)) (combine (seq 1 (List.length its)) its)) [] [] true with
+  | Done r => match run_n n (ex_state base (out_bytes r)) with
+              | Some s' => Some (out_bytes r, map (getr s') ask, pc s')
+              | None => None
+              end
+  | _ => None
+  end.
+(* lui a0, %hi(0x1f004) ; addi a0, a0, %lo(0x1f004)  ->  c.lui a0, 0x1f ; c.addi a0, 4 *)
+Example C07_ex_c_lui_addi :
+  ex_run_c [lui_i "a0" (num 126980); lo_i "addi" "a0" "a0" (num 126980)] 4096 2 [10; 11] = Some ([125; 101; 17; 5], [126980; 1011], 4100).
+Proof. vm_compute. reflexivity. Qed.
+(* 0x1e800: %hi rounded up to 0x1f (still a c.lui), %lo = -2048 (no c.addi): 6 bytes *)
+Example C07_ex_c_lui_addi_6 :
+  ex_run_c [lui_i "a0" (num 124928); lo_i "addi" "a0" "a0" (num 124928)] 4096 2 [10] = Some ([125; 101; 19; 5; 5; 128], [124928], 4102).
+Proof. vm_compute. reflexivity. Qed.
+(* 0x12345800: nothing to compress *)
+Example C07_ex_c_lui_addi_8 :
+  ex_run_c [lui_i "t0" (num 305420288); lo_i "addi" "t0" "t0" (num 305420288)] 4096 2 [5]
+  = Some ([183; 98; 52; 18; 147; 130; 2; 128], [305420288], 4104).
+Proof. vm_compute. reflexivity. Qed.
+
+(* ==== the pairs ANYWHERE in ANY program (compress = false; Proofs/RelocPairsAnywhere.v) ===========================================
+   For every program  pre ++ [first line; second line] ++ post  (any items in front and behind: constants, labels, pseudo-instructions,
+   alignment, data ...), any initial constants / labels: if the pass model assembles it, the two lines come out as two adjacent 4-byte
+   chunks (r_chunks r = cpre ++ [first; second] ++ cpost), their offset in the output is chunks_len cpre (the sizes of the chunks in front:
+   bytes, zero runs, included files), and their bytes ARE emit_lines of the two lines at that offset under the FINAL constants and labels of
+   the run -- with register operands that name a constant replaced by its value (alias_arg; resolve_register_aliases).
+   So everything stated above at the level of emit_lines holds for the pair wherever it stands; spelled out for the pairs of C07: *)
+From BB Require Proofs.RelocPairsAnywhere.
+Import Proofs.RelocPairsAnywhere.
+Open Scope Z_scope.
+
+Theorem C07_pair_anywhere : forall pre l1 c1 n1 f1 l2 c2 n2 f2 post c0 l0 r,
+  assemble_items (pre ++ [(l1, IInstr c1 n1 f1 false); (l2, IInstr c2 n2 f2 false)] ++ post) c0 l0 false = Done r ->
+  exists cpre bs1 bs2 cpost,
+    r_chunks r = cpre ++ [(l1, CBytes bs1); (l2, CBytes bs2)] ++ cpost /\ zlen bs1 = 4 /\ zlen bs2 = 4 /\
+    emit_lines (r_consts r) (r_labels r) (chunks_len cpre)
+               [(l1, IInstr c1 n1 (map (alias_field (r_consts r)) f1) false); (l2, IInstr c2 n2 (map (alias_field (r_consts r)) f2) false)]
+    = Done (bs1 ++ bs2).
+Proof. exact pair_anywhere. Qed.
+
+Theorem C07_lui_addi_anywhere : forall pre post l1 l2 rd e c0 l0 r,
+  is_position_relative e = false ->
+  assemble_items (pre ++ [(l1, mkU "lui" rd (EHi e)); (l2, mkI "addi" rd rd (ELo e) false)] ++ post) c0 l0 false = Done r ->
+  exists cpre bs1 bs2 cpost nrd v,
+    r_chunks r = cpre ++ [(l1, CBytes bs1); (l2, CBytes bs2)] ++ cpost /\
+    regnum (alias_arg (r_consts r) rd) = Some nrd /\
+    eval_here l1 (chunks_len cpre) (r_consts r) (r_labels r) e = Done v /\
+    forall s, loaded s (bs1 ++ bs2) ->
+      exists s', run_n 2 s = Some s' /\ pc s' = wrap (pc s + 8) /\ only_reg s s' nrd (wrap v).
+Proof. exact lui_addi_anywhere. Qed.
+
+Theorem C07_lui_load_anywhere : forall w pre post l1 l2 t rd e c0 l0 r,
+  is_position_relative e = false ->
+  assemble_items (pre ++ [(l1, mkU "lui" t (EHi e)); (l2, mkI (lwidth_name w) rd t (ELo e) false)] ++ post) c0 l0 false = Done r ->
+  exists cpre bs1 bs2 cpost nt nrd v,
+    r_chunks r = cpre ++ [(l1, CBytes bs1); (l2, CBytes bs2)] ++ cpost /\
+    regnum (alias_arg (r_consts r) t) = Some nt /\ regnum (alias_arg (r_consts r) rd) = Some nrd /\
+    eval_here l1 (chunks_len cpre) (r_consts r) (r_labels r) e = Done v /\
+    forall s, loaded s (bs1 ++ bs2) -> nt <> 0 ->
+      exists s', run_n 2 s = Some s' /\ pc s' = wrap (pc s + 8) /\
+        two_regs s s' nt (wrap (relocate_hi v * 4096)) nrd (load_val w (mem s) (wrap v)).
+Proof. exact lui_load_anywhere. Qed.
+
+Theorem C07_lui_store_anywhere : forall w pre post l1 l2 t rs e c0 l0 r,
+  is_position_relative e = false ->
+  assemble_items (pre ++ [(l1, mkU "lui" t (EHi e)); (l2, mkS (swidth_name w) t rs (ELo e))] ++ post) c0 l0 false = Done r ->
+  exists cpre bs1 bs2 cpost nt nrs v,
+    r_chunks r = cpre ++ [(l1, CBytes bs1); (l2, CBytes bs2)] ++ cpost /\
+    regnum (alias_arg (r_consts r) t) = Some nt /\ regnum (alias_arg (r_consts r) rs) = Some nrs /\
+    eval_here l1 (chunks_len cpre) (r_consts r) (r_labels r) e = Done v /\
+    forall s, loaded s (bs1 ++ bs2) -> nt <> 0 ->
+      exists s', run_n 2 s = Some s' /\ pc s' = wrap (pc s + 8) /\
+        getr s' nt = wrap (relocate_hi v * 4096) /\ (forall x, x <> nt -> getr s' x = getr s x) /\
+        mem s' = store_le (swidth_bytes w) (mem s) (wrap v) (if nrs =? nt then wrap (relocate_hi v * 4096) else getr s nrs).
+Proof. exact lui_store_anywhere. Qed.
+
+(* auipc + jalr by hand: q1, q2 are the final values of the labels (offsets in the output, C03_labels), p the offset of the auipc *)
+Theorem C07_auipc_jalr_anywhere : forall pre post l1 l2 t rd L1 L2 c0 l0 r,
+  assemble_items (pre ++ [(l1, mkU "auipc" t (EHi (EOff L1))); (l2, mkI "jalr" rd t (ELo (EOff L2)) false)] ++ post) c0 l0 false = Done r ->
+  exists cpre bs1 bs2 cpost nt nrd q1 q2,
+    r_chunks r = cpre ++ [(l1, CBytes bs1); (l2, CBytes bs2)] ++ cpost /\
+    regnum (alias_arg (r_consts r) t) = Some nt /\ regnum (alias_arg (r_consts r) rd) = Some nrd /\
+    chain_get (r_consts r) (r_labels r) L1 = Some q1 /\ chain_get (r_consts r) (r_labels r) L2 = Some q2 /\
+    forall s, loaded s (bs1 ++ bs2) -> nt <> 0 ->
+      let p := chunks_len cpre in
+      let target := wrap (pc s + (q1 - p) + (relocate_lo (q2 - (p + 4)) - relocate_lo (q1 - p))) in
+      exists s', run_n 2 s = Some s' /\ pc s' = target - target mod 2 /\
+        two_regs s s' nt (wrap (pc s + relocate_hi (q1 - p) * 4096)) nrd (wrap (pc s + 8)).
+Proof. exact auipc_jalr_anywhere. Qed.
+Theorem C07_auipc_jalr_same_label_misses_anywhere : forall pre post l1 l2 t rd L c0 l0 r,
+  assemble_items (pre ++ [(l1, mkU "auipc" t (EHi (EOff L))); (l2, mkI "jalr" rd t (ELo (EOff L)) false)] ++ post) c0 l0 false = Done r ->
+  exists cpre bs1 bs2 cpost nt nrd q,
+    r_chunks r = cpre ++ [(l1, CBytes bs1); (l2, CBytes bs2)] ++ cpost /\
+    regnum (alias_arg (r_consts r) t) = Some nt /\ regnum (alias_arg (r_consts r) rd) = Some nrd /\
+    chain_get (r_consts r) (r_labels r) L = Some q /\
+    forall s, loaded s (bs1 ++ bs2) -> nt <> 0 ->
+      let d := q - chunks_len cpre in
+      let target := wrap (pc s + d - 4 + (if lo_window d then 4096 else 0)) in
+      exists s', run_n 2 s = Some s' /\ pc s' = target - target mod 2 /\ pc s' <> wrap (pc s + d) /\
+        two_regs s s' nt (wrap (pc s + relocate_hi d * 4096)) nrd (wrap (pc s + 8)).
+Proof. exact auipc_jalr_same_label_anywhere. Qed.
+
+Definition C07_anywhere_theorems := (C07_pair_anywhere, C07_lui_addi_anywhere, C07_lui_load_anywhere, C07_lui_store_anywhere,
+  C07_auipc_jalr_anywhere, C07_auipc_jalr_same_label_misses_anywhere).
+Print Assumptions C07_anywhere_theorems.
+
+(* non-vacuity: a constant, a register alias (tmp = 5 = t0), a pseudo-instruction and an alignment in front of the pair, a label behind it.
+   PORT = 0x40011000 ; tmp = 5 ; li a1, 7 ; align 8 ; lui tmp, %hi(PORT + 2048) ; addi tmp, tmp, %lo(PORT + 2048) ; end:
+   The pair stands at offset 8 (4 bytes of li + 4 bytes of padding); loaded there and run it leaves 0x40011800 in x5. *)
+Definition ex_port : expr := EArith (ABin OAdd (AName "PORT") (ANum 2048)).
+Definition ex_pre : list litem :=
+  [(ex_line 1, IConst "PORT" (num 1073811456)); (ex_line 2, IConst "tmp" (num 5));
+   (ex_line 3, IPseudo "li" ["a1"; "7"] (POk (num 7))); (ex_line 4, IAlign 8)].
+Definition ex_pair : list litem :=
+  [(ex_line 5, mkU "lui" (AStr "tmp") (EHi ex_port)); (ex_line 6, mkI "addi" (AStr "tmp") (AStr "tmp") (ELo ex_port) false)].
+Definition ex_post : list litem := [(ex_line 7, ILabel "end")].
+Example C07_ex_anywhere :
+  exists r, assemble_items (ex_pre ++ ex_pair ++ ex_post) [] [] false = Done r /\
+    r_chunks r = [(ex_line 3, CBytes [147; 5; 112; 0]); (ex_line 4, CZeros 4)]
+                 ++ [(ex_line 5, CBytes [183; 34; 1; 64]); (ex_line 6, CBytes [147; 130; 2; 128])] ++ [] /\
+    chunks_len [(ex_line 3, CBytes [147; 5; 112; 0]); (ex_line 4, CZeros 4)] = 8 /\
+    r_consts r = [("PORT", 1073811456); ("tmp", 5)] /\ r_labels r = [("end", 16)] /\
+    regnum (alias_arg (r_consts r) (AStr "tmp")) = Some 5 /\
+    eval_here (ex_line 5) 8 (r_consts r) (r_labels r) ex_port = Done 1073813504 /\
+    option_map (fun s' => (getr s' 5, pc s')) (run_n 2 (ex_state 4104 [183; 34; 1; 64; 147; 130; 2; 128])) = Some (1073813504, 4112).
+Proof. eexists. repeat split; vm_compute; reflexivity. Qed.
+
+(* non-vacuity at the level of emit_lines: constants, labels and a position that are not those of a toy program *)
+Example C07_ex_emit_lines :
+  emit_lines [("PORT", 1073811456)] [("buf", 305420288)] 1000
+             [(ex_line 1, mkU "lui" (AStr "a0") (EHi (EArith (AName "buf")))); (ex_line 2, mkI "lw" (AStr "a0") (AInt 10) (ELo (EArith (AName "buf"))) false)]
+  = Done [55; 101; 52; 18; 3; 37; 5; 128].
+Proof. vm_compute. reflexivity. Qed.
